@@ -86,12 +86,24 @@ class _CrashFile:
         return getattr(self._real, name)
 
 
+_OPEN_FORMS = [0]
+
+
 def _read_back(path, d_hint=None):
-    """Open with the real reader; -> dict(ok, ...)."""
-    from gaddlemaps.parsers import GroFile
+    """Open with the real reader; -> dict(ok, ...).  The reader is given the path or - every third time - an already
+    opened file, the other documented way (open_coordinate_file(open(path)))."""
+    from gaddlemaps.parsers import GroFile, open_coordinate_file
+    _OPEN_FORMS[0] += 1
+    fh = None
     try:
-        g = GroFile(path)
+        if _OPEN_FORMS[0] % 3 == 0:
+            fh = open(path)
+            g = open_coordinate_file(fh) if _OPEN_FORMS[0] % 2 else GroFile(fh)
+        else:
+            g = GroFile(path)
     except Exception as exc:  # any error is a rejection
+        if fh is not None:
+            fh.close()
         return {'ok': False, 'exc': type(exc).__name__}
     try:
         try:
@@ -413,7 +425,7 @@ def random_file_trace(seed, tid, workdir, max_recs, trunc=True):
     n = rng.choice([1, 2, 3, rng.randint(1, max_recs)])
     hv = rng.random() < 0.5
     declared = rng.random() < 0.5
-    alphabet = 'ABCDEFGHIJKLMNOPQRSTUVWXYZabcdefghijklmnopqrstuvwxyz0123456789*\'+-_#'
+    alphabet = 'ABCDEFGHIJKLMNOPQRSTUVWXYZabcdefghijklmnopqrstuvwxyz0123456789*\'+-_#.'
     title_kind = rng.choice(['unset', 'text', 'textnl', 'blank', 'long', 'unicode'])
     title = {'unset': None, 'text': 'Protein in water t= 0.0', 'textnl': 'Generated, 12 atoms\n',
              'blank': '', 'long': 'x' * 120, 'unicode': 'Prot\u00e9ine \u00e0 300 K \u2013 1 \u00b5s'}[title_kind]
@@ -447,6 +459,8 @@ def random_file_trace(seed, tid, workdir, max_recs, trunc=True):
             rid, nr = rng.randint(0, 10 ** 7), rng.randint(0, 10 ** 7)
         resname = ''.join(rng.choice(alphabet) for _ in range(rng.randint(1, 5)))
         name = ''.join(rng.choice(alphabet) for _ in range(rng.randint(1, 5)))
+        if i == 0 and rng.random() < 0.15:
+            resname, name = rng.choice([('LIG', 'C.1'), ('O.co2', 'O.co2'), ('A.B', 'N.am'), ('.', '.')])    # dotted names in the first record
         pos = [coord(4, d) for _ in range(3)]
         vel = [coord(3, d + 1) for _ in range(3)] if hv else []
         lines.append([rid, resname, name, nr] + pos + vel)
